@@ -1,6 +1,6 @@
 import Nq.Lemmas.SmtpdSrc.Defs
 namespace Nq.SmtpdSrc
-/-- exhaustive kernel evaluation: pos = 9, every flag combination, every byte -/
 set_option maxRecDepth 1000000 in
+/-- exhaustive kernel evaluation: pos = 9, every flag combination, every byte -/
 theorem sliceH_9 : sliceH 9 = true := by decide +kernel
 end Nq.SmtpdSrc
